@@ -1,7 +1,7 @@
 (* line-protocol driver around the extracted event-buffer model (coq/Rt/RtBufDefs.v)
 
    R <fx:0|1> <cap|D> <clocks: c,c,...|-> <ops: op;op;...|->
-        op ::= E<mmccvv>:<hex>,<hex>,...   emit, one ovni_payload_add per chunk (may be none)
+        op ::= E<mmccvv>:<hex>,<hex>,...   emit, one ovni_payload_add per chunk (may be none; z = empty chunk)
              | J<mmccvv>:h<hex>            jumbo emit, literal data ("h" alone: empty)
              | J<mmccvv>:b<seed>.<len>     jumbo emit, data byte i = (seed + i mod 251) land 255
              | F                           ovni_flush
@@ -49,6 +49,7 @@ let byte_tab = Array.init 256 z_of_int
 
 let hexval c = match c with '0'..'9' -> Char.code c - 48 | 'a'..'f' -> Char.code c - 87 | 'A'..'F' -> Char.code c - 55 | _ -> failwith "hex"
 let bytes_of_hex s =
+  if s = "z" then [] else
   let n = String.length s / 2 in
   List.init n (fun i -> byte_tab.(hexval s.[2*i] * 16 + hexval s.[2*i+1]))
 
